@@ -75,7 +75,10 @@ def check_object(t, v, obj, ctx, res, vmode):
         res.transitions += 1
         common.breadcrumb("%s|%s|%s(%r)" % (xt.show(t), vmode, kern.c_name, kw))
         try:
-            r = getattr(ctx.kernels, kern.c_name)(obj=obj, **kw)
+            arg = obj
+            if ci % 2 and t[0] != "U":
+                arg = type(obj)._from_buffer(obj._buffer, obj._offset)  # every other call goes through a rebuilt view
+            r = getattr(ctx.kernels, kern.c_name)(obj=arg, **kw)
         except Exception as e:
             bad(action, "call-raises:" + type(e).__name__, repr(e), vpath, idx, lt)
             continue
